@@ -98,7 +98,10 @@ impl ToTokens for DeriveInputShapeSet {
 
                             struct_check.check(struct_data)
                         }
-                        ::darling::export::syn::Data::Union(_) => unreachable!(),
+                        // No `struct_*` or `enum_*` word describes a union.
+                        ::darling::export::syn::Data::Union(_) => ::darling::export::Err(
+                            ::darling::Error::unsupported_shape("union")
+                        ),
                     }
                 }
             }
